@@ -50,7 +50,7 @@ ASSUMPTIONS = ['the equations of the neutron_scattering docstring are the specif
                'independent reader/reference pvmon/ref/neutron.py; masses, abundances, densities from pvmon/ref/masses.py',
                'physical constants of periodictable.constants are data (cross-pinned by C04)',
                'natural Lu (no table of its own) is the abundance-weighted mix of Lu-175 and the Lu-176 table, as the anchored energy_dependent_init states',
-               'natural_density= is exercised only for compounds without ions (the ion/natural-mass-ratio defect D10 belongs to C12)',
+               'natural_density= is exercised for every compound, ions and isotope ions included (round 8; D10 is repaired)',
                'natural Pu and Cm (several isotope rows, no natural row) are in neither the with-data nor the without-data pool',
                'an ion has the neutron data of its element/isotope and the mass less q electrons',
                'Ra/Ra-226 have tabulated data: with a given density they belong to the "all atoms have neutron data" clause',
@@ -349,8 +349,9 @@ def generate(ctx):
         atoms = _random_compound(ctx, rng)
         has_ion = any(q for _Z, _A, q, _n in atoms)
         case = {'family': 'compound', 'atoms': atoms, 'density': _density(rng),
-                'dkind': 'natural_density' if (not has_ion and rng.random() < 0.35) else 'density',
-                'form': rng.choice(['dict', 'dict', 'string', 'string', 'formula'] + (['atom'] if len(atoms) == 1 and atoms[0][3] == 1 else []))}
+                'dkind': 'natural_density' if rng.random() < 0.35 else 'density',
+                'form': rng.choice(['dict', 'dict', 'string', 'string', 'formula', 'structure', 'structure-formula']
+                                   + (['atom'] if len(atoms) == 1 and atoms[0][3] == 1 else []))}
         if case['form'] == 'string':
             case['string'] = _render(atoms, rng)
         case['also_sld'] = rng.random() < 0.2
@@ -408,7 +409,7 @@ def _nested_case(ctx, rng):
     has_ion = any(q for _Z, _A, q, _n in atoms)
     case = {'family': 'nested', 'atoms': atoms, 'tree': tree, 'form': form, 'string': G.render_string(tree, pt.elements, rng),
             'nesting': G.nesting_of(tree) + (1 if outer else 0), 'density': _density(rng),
-            'dkind': 'natural_density' if (not has_ion and rng.random() < 0.3) else 'density',
+            'dkind': 'natural_density' if rng.random() < 0.3 else 'density',
             'also_sld': rng.random() < 0.1}
     if outer:
         case['outer'] = outer
@@ -540,6 +541,22 @@ def _lib_atom(Z, A, q):
     return lookup(pt.elements, (Z, A, q))
 
 
+def _count_kind(n, i):
+    """The count *n* as another kind of number with exactly the same value (Fraction, numpy scalars, bool)."""
+    import numpy as np
+    # Fraction counts are left to C02 (composition only): numpy.sqrt refuses the object arrays they lead to with
+    # vector wavelengths, loudly; float32 counts make numpy 2 compute in single precision (4e-8 relative)
+    kinds = [np.float64, float]
+    if float(n) == int(n) and 0 <= n < 2 ** 31:
+        kinds += [np.int32, np.int64, int]      # not uint8: numpy 2 refuses uint8 + (python int beyond 255), loudly
+        if n == 1:
+            kinds.append(bool)
+    k = kinds[i % len(kinds)]
+    v = k(int(n)) if k in (np.int32, np.int64, int, bool) else k(n)
+    assert float(v) == float(n)
+    return v
+
+
 def _vector(kind, values):
     import numpy as np
     if kind == 'scalar':
@@ -571,6 +588,11 @@ def _call_args(case):
         compound = _lib_atom(*atoms[0][:3])
     elif form == 'formula':
         compound = pt.formula(as_dict)
+    elif form in ('structure', 'structure-formula'):
+        # round 8: the list-structure route [(count, atom), ...] with counts of other exact kinds of numbers
+        compound = [(_count_kind(n, i + len(atoms)), _lib_atom(Z, A, q)) for i, (Z, A, q, n) in enumerate(atoms)]
+        if form == 'structure-formula':
+            compound = pt.formula(compound)
     else:
         compound = as_dict
     kw = {case.get('dkind', 'density'): case['density']}
